@@ -222,6 +222,7 @@ Return = node('Return', 'e')
 Throw = node('Throw', 'e')
 Try = node('Try', 'body handlers')                       # handlers: list of (Type|None(for ...), name, Block)
 Empty = node('Empty', '')
+LocalClass = node('LocalClass', 'name')
 # top level
 Param = node('Param', 'type name default')
 FuncDef = node('FuncDef', 'ret qname params body const noexcept inits template file cls body_toks static extern_c')
@@ -835,6 +836,13 @@ class Parser:
                     self.next()
                 self.next()
                 return Empty(line=t.line)
+            if v in ('class', 'struct') and self.peek(1).k == 'id' and self.peek(2).v in ('{', ':', 'final') and getattr(self, 'unit', None) is not None:
+                # class defined inside a function body: parsed like a namespace-scope class, registered with the enclosing unit
+                nm = self.peek(1).v
+                tl = TopLevel(self, self.unit)
+                if tl.try_parse_class():
+                    self.known_types.add(nm)
+                    return LocalClass(nm, line=t.line)
         return self.parse_decl_or_expr_stmt()
 
     def try_parse_decl_head(self):
@@ -976,6 +984,7 @@ class Unit:
         self.macro_counts = {}
         self.skipped = []    # (line, reason)
         self.aliases = set()
+        self.proto_defaults = {}
 
 def parse_file(path, known_types=None, extra_defines=None):
     text = open(path).read()
@@ -1260,6 +1269,10 @@ class TopLevel:
                 return
             if p.at(';'):
                 p.next()
+                # prototype: remember default arguments (they belong to the out-of-line definition too)
+                if any(q.default is not None for q in params):
+                    full = qname if cls is None else cls.name + '::' + qname
+                    u.proto_defaults.setdefault(full, []).append(params)
                 return   # prototype
             if p.at(':'):
                 p.next()
@@ -1347,5 +1360,7 @@ def parse_body(fd, known_types=None, known_templates=None):
     toks = [Tok(t.k, t.v, t.pos, t.line) for t in fd.body_toks] + [Tok('eof', '', 0, 0)]
     kt = set(known_types or ())
     p = Parser(toks, known_types=kt, known_templates=known_templates, fname=os.path.basename(fd.file))
+    p.unit = Unit(fd.file)
+    fd.local_unit = p.unit
     fd.body = p.parse_block()
     return fd.body
